@@ -185,7 +185,11 @@ def report(chk, family, kind, variant, text, mode, fails):
             if fk == "driver":
                 chk.tie_broken("driver_c03", detail)
             continue
-        small = hl.shrink(text, lambda cand: any(f[0] == fk for f in analyse(cand, variant, mode)[1]))
+        cnt = chk.extra.setdefault("failures_by_kind", {})
+        cnt[fk + "|" + variant] = cnt.get(fk + "|" + variant, 0) + 1
+        if cnt[fk + "|" + variant] > 2:
+            continue                      # two shrunk instances per kind and build are reported; the count stays in the evidence
+        small = hl.shrink(text, lambda cand: any(f[0] == fk for f in analyse(cand, variant, mode)[1])) 
         _, f2, _ = analyse(small, variant, mode)
         d2 = next((f[2] for f in f2 if f[0] == fk), detail)
         rep = {"check": "C03", "kind": fk, "variant": variant, "scenario": small, "original": text, "detail": d2, "mode": mode}
